@@ -201,3 +201,28 @@ package cbor
 //@   ensures[content] err == nil ==> forall i int :: 0 <= i && i < len(out) ==> out[i] == sdata(d.r)[old(spos(d.r)) + 1 + nfOfAI(sdata(d.r)[old(spos(d.r))] & 31) + i]
 //@   ensures spos(d.r) >= old(spos(d.r)) && spos(d.r) <= send(d.r)
 //@   assigns spos(d.r)
+
+//@ func (*Decoder).DecodeByteString
+//@   props C12 C10
+//@   returns (out, err)
+//@   requires d.r != nil
+//@   ensures err == nil ==> (sdata(d.r)[old(spos(d.r))] & 224) == 64 && (sdata(d.r)[old(spos(d.r))] & 31) < 28
+//@   ensures err == nil ==> spos(d.r) == old(spos(d.r)) + 1 + nfOfAI(sdata(d.r)[old(spos(d.r))] & 31) + len(out)
+//@   ensures err == nil && nfOfAI(sdata(d.r)[old(spos(d.r))] & 31) == 0 ==> len(out) == int(sdata(d.r)[old(spos(d.r))] & 31)
+//@   ensures err == nil && nfOfAI(sdata(d.r)[old(spos(d.r))] & 31) > 0 ==> uint64(len(out)) == beValue(sdata(d.r), old(spos(d.r)) + 1, nfOfAI(sdata(d.r)[old(spos(d.r))] & 31))
+//@   ensures err == nil ==> forall i int :: 0 <= i && i < len(out) ==> out[i] == sdata(d.r)[old(spos(d.r)) + 1 + nfOfAI(sdata(d.r)[old(spos(d.r))] & 31) + i]
+//@   ensures spos(d.r) >= old(spos(d.r)) && spos(d.r) <= send(d.r)
+//@   assigns spos(d.r)
+
+//@ func (*Decoder).DecodeTextString
+//@   props C12 C10
+//@   returns (out, err)
+//@   requires d.r != nil
+//@   ensures err == nil ==> (sdata(d.r)[old(spos(d.r))] & 224) == 96 && (sdata(d.r)[old(spos(d.r))] & 31) < 28
+//@   ensures err == nil ==> spos(d.r) == old(spos(d.r)) + 1 + nfOfAI(sdata(d.r)[old(spos(d.r))] & 31) + len(out)
+//@   ensures err == nil && nfOfAI(sdata(d.r)[old(spos(d.r))] & 31) == 0 ==> len(out) == int(sdata(d.r)[old(spos(d.r))] & 31)
+//@   ensures err == nil && nfOfAI(sdata(d.r)[old(spos(d.r))] & 31) > 0 ==> uint64(len(out)) == beValue(sdata(d.r), old(spos(d.r)) + 1, nfOfAI(sdata(d.r)[old(spos(d.r))] & 31))
+//@   ensures err == nil ==> forall i int :: 0 <= i && i < len(out) ==> out[i] == sdata(d.r)[old(spos(d.r)) + 1 + nfOfAI(sdata(d.r)[old(spos(d.r))] & 31) + i]
+//@   ensures[utf8] err == nil ==> utf8valid(bytes(out))
+//@   ensures spos(d.r) >= old(spos(d.r)) && spos(d.r) <= send(d.r)
+//@   assigns spos(d.r)
